@@ -314,7 +314,7 @@ func c06Child(c *mon.Child) {
 		c06FlatLexing(c)
 	}
 	// Part A: generated grammars x arbitrary bytes / soup / near-derivations
-	nInputs := c.N(60, 150)
+	nInputs := c.N(60, 300)
 	for gi, h := range gram.Registry {
 		gp := buildAll(h, []int{[]int{1, 2, participle.MaxLookahead, 0}[gi%4]}, gi%3 == 1)
 		if gp.err != nil {
@@ -364,7 +364,7 @@ func c06Child(c *mon.Child) {
 		}
 		corpus := c06Corpus(ex.Name)
 		r := c.RNG("example", ex.Name)
-		n := c.N(400, 3000)
+		n := c.N(400, 12000)
 		who := "example grammar " + ex.Name
 		for i := 0; i < n; i++ {
 			key := fmt.Sprintf("ex.%s.%d", ex.Name, i)
@@ -478,7 +478,7 @@ func init() {
 		Batches:     func(t string) int { return pick(t, 4, 16) },
 		Floor:       func(t string) int { return pick(t, 3000, 30000) },
 		TimeoutSec:  func(t string) int { return pick(t, 400, 3600) },
-		Prepare: gramPrepareEx("C06", func(t string) int { return pick(t, 60, 150) }, c06Opts, witnessExtra, false, func(dir string) error {
+		Prepare: gramPrepareEx("C06", func(t string) int { return pick(t, 60, 300) }, c06Opts, witnessExtra, false, func(dir string) error {
 			_, err := gram.EmitExamples(dir, c06Examples)
 			return err
 		}),
